@@ -259,7 +259,7 @@ def pub_body(alg, material, t=b'\x5f\x5e\x10\x00'):
 
 @ob('O8.pub-rsa', 'RSA public key and subkey packets: n and e as foreign multiprecision integers',
     'tag in {6, 14}; n below 2^32 and e below 2^17: declared bit counts from {25,31,32} x {1,16,17} (leading zero bits included), first and last octet of each symbolic; header form {new-1, old-1, old-2}',
-    cond_timeout={'q': 280, 't': 900}, flags=('symmpi',), partitions=[['form == %d' % f] for f in (0, 3, 4)])
+    cond_timeout={'q': 280, 't': 900}, flags=('symmpi',), partitions=[['form == %d' % f, s] for f in (0, 3, 4) for s in ('sub', 'not sub')])
 def fp_pub_rsa(form: int, sub: bool, nbits: int, n0: int, n1: int, n2: int, n3: int, ebits: int, e0: int, e1: int, e2: int) -> bool:
     """
     pre: form in (0, 3, 4)
